@@ -207,14 +207,11 @@ extern "C" void h_link_units_tree()
     m->addComponent(c1);
     m->addComponent(c2);
     c2->addComponent(c3);
-#ifndef WHICH
-#    define WHICH 1
-#endif
-    // one symbolic choice per query (three symbolic units pointers at once: no verdict in 900 s)
-    bool f = vin(0, 1);
-    bool f1 = WHICH == 1 && f;
-    bool f2 = WHICH == 2 && f;
-    bool f3 = WHICH == 3 && f;
+    // no solver verdict in 900 s even with one symbolic choice (measured): the solver query is attempted in the thorough tier only,
+    // the quick tier runs this root through the model/real differential (all 8 combinations are hit by the seeds)
+    bool f1 = vin(0, 1);
+    bool f2 = vin(0, 1);
+    bool f3 = vin(0, 1);
     v1->setUnits(u);
     v2->setUnits(u);
     v3->setUnits(u);
